@@ -29,6 +29,7 @@ VERIF = P.VERIF
 _OUT = os.environ.get("MQV_OUT")
 BUILD_ROOT = os.path.join(_OUT, "build") if _OUT else os.path.join(VERIF, ".build")
 EVIDENCE_DIR = os.path.join(_OUT, "evidence") if _OUT else os.path.join(VERIF, "evidence")
+MAX_TRACES = 3
 REPLAY_DIR = os.path.join(_OUT, "replays") if _OUT else os.path.join(VERIF, "replays")
 KNOWN = os.path.join(VERIF, "KNOWN_FINDINGS.txt")
 
@@ -146,7 +147,8 @@ def run_one(name, meta, cfg, workdir, tier):
 
 def get_trace(res, cfg, workdir, prop_name):
     """re-run cbmc for one failed property with --trace; returns list of nondet byte vectors."""
-    logp = os.path.join(workdir, res["name"] + ".trace.json")
+    import hashlib
+    logp = os.path.join(workdir, res["name"] + "." + hashlib.md5(prop_name.encode()).hexdigest()[:8] + ".trace.json")
     r = P.run_cbmc(res["goto"], cfg["unwind"], res["unwindset"], cfg["timeout"], cfg["mem_gb"], logp,
                    extra=(cfg.get("cbmc_extra") or []) + ["--property", prop_name], trace=True)
     for pr in r["props"]:
@@ -279,6 +281,7 @@ def check(prop, tier, seed, selected, build_dir, workdir, args, t_start):
     side = []
     nontrivial = 0
     replay_bin = {}
+    cands_by_h = {}
 
     for h in selected:
         r = results[h]
@@ -292,8 +295,10 @@ def check(prop, tier, seed, selected, build_dir, workdir, args, t_start):
             continue
         c = r["cls"]
         cands = []
+        relabel = R.HARNESSES.get(h, {}).get("relabel", {})
         for (pname, desc, loc) in c["assert_fail"]:
-            cands.append((pname, desc, loc, prop_of_desc(desc, primary)))
+            vp = prop_of_desc(desc, primary)
+            cands.append((pname, desc, loc, relabel.get(vp, vp)))
         for (pname, desc, loc) in c["builtin_fail"]:
             cands.append((pname, desc, loc, primary))
         for (pname, desc, loc) in c["unwind_fail"]:
@@ -312,19 +317,43 @@ def check(prop, tier, seed, selected, build_dir, workdir, args, t_start):
                 continue
             if not cands:
                 inconclusive.append("%s: vacuity witness unsatisfiable: %s" % (h, cu))
-        # triage candidates
+        # one candidate per (property, label), at most MAX_TRACES per harness (each needs a cbmc re-run)
         seen_labels = set()
+        uniq = []
         for (pname, desc, loc, vprop) in cands:
             label = re.sub(r"\s+", " ", desc)[:160]
             if (vprop, label) in seen_labels:
                 continue
             seen_labels.add((vprop, label))
+            uniq.append((pname, desc, loc, vprop))
+        if len(uniq) > MAX_TRACES:
+            log("  %s: %d distinct failed assertions, replaying the first %d" % (h, len(uniq), MAX_TRACES))
+        cands_by_h[h] = uniq[:MAX_TRACES]
+
+    # counterexample traces: one cbmc re-run per candidate, in parallel
+    trace_cache = {}
+    todo = [(h, pname) for h in selected for (pname, _d, _l, _v) in cands_by_h.get(h, [])]
+    if todo:
+        log("[%s/%s] extracting %d counterexample trace(s) ..." % (prop, tier, len(todo)))
+        with cf.ThreadPoolExecutor(max_workers=max(1, args.jobs or R.default_jobs(tier))) as ex:
+            futs = {ex.submit(get_trace, results[h], R.config_for(h, tier), workdir, pname): (h, pname) for (h, pname) in todo}
+            for fu in cf.as_completed(futs):
+                try:
+                    trace_cache[futs[fu]] = fu.result()
+                except Exception as e:
+                    trace_cache[futs[fu]] = (None, None)
+
+    for h in selected:
+        r = results[h]
+        cfg = R.config_for(h, tier)
+        primary = R.primary_of(h)
+        for (pname, desc, loc, vprop) in cands_by_h.get(h, []):
             where = "%s:%s" % (loc.get("file", "?"), loc.get("line", "?"))
             if vprop != prop and tier == "quick" and False:
                 pass
             kf = match_known(known, vprop, h, desc)
             # replay
-            vals, trace = get_trace(r, cfg, workdir, pname)
+            vals, trace = trace_cache.get((h, pname), (None, None))
             rep_path = None
             reproduced = None
             out_txt = ""
